@@ -103,13 +103,6 @@ func (srv *Srv) attach(req *SrvReq) {
 		return
 	}
 
-	if tc.Afid != NOFID {
-		req.Afid = conn.FidGet(tc.Afid)
-		if req.Afid == nil {
-			req.RespondError(Eunknownfid)
-		}
-	}
-
 	var user User
 	if tc.Unamenum != NOUID || conn.Dotu {
 		user = srv.Upool.Uid2User(int(tc.Unamenum))
@@ -120,6 +113,14 @@ func (srv *Srv) attach(req *SrvReq) {
 	if user == nil {
 		req.RespondError(Enouser)
 		return
+	}
+
+	if tc.Afid != NOFID {
+		req.Afid = conn.FidGet(tc.Afid)
+		if req.Afid == nil {
+			req.RespondError(Eunknownfid)
+			return
+		}
 	}
 
 	req.Fid.User = user
